@@ -47,6 +47,7 @@ C15.5 an empty list clears every schema and the DN tenant order is reversed on
 both sides. Fourth round: C15.5 the LDAP update diff filters a value only when
 it is None.
 Sweep: C15.2 a value the base-n encoder special-cases is written as its own digit; C15.3 the base decoder hands every field under its own name to the decoder of the class the type tag selects and returns what that decoder built, and a split is decoded by exact unpacking only when every field is numeric.
+Fifth round: C15.4 the zkutils writers decide that no payload was given by identity with None, never by truthiness; C15.5 LdapObject.update sends the entry exactly as to_entry built it (empty values are the deletion markers).
 Does NOT decide round-trip equality and injectivity over the value domains
 (type coercions, port 0 vs wildcard, None vs empty list).
 """
